@@ -154,7 +154,9 @@ func (e *c19env) ruleCompressDst() {
 			}
 			return false
 		}
-		hasCall := func(nd ast.Node) bool { return containsNode(nd, false, func(y ast.Node) bool { return y == ast.Node(call) }) }
+		hasCall := func(nd ast.Node) bool {
+			return containsNode(nd, false, func(y ast.Node) bool { return y == ast.Node(call) })
+		}
 		isNeutral := func(nd ast.Node) bool { // var w *bytes.Buffer (nil) ; w != nil tests
 			if ds, ok := nd.(*ast.DeclStmt); ok {
 				if gd, ok := ds.Decl.(*ast.GenDecl); ok {
